@@ -152,7 +152,7 @@ def check_C10(ctx):
     for (t_, o_, fam_, *_m) in scale.guard_patterns(ctx):
         cs.eval(t_, o_, fam_)
     # names other systems treat as built-ins, names spelled like keywords (on objects that have them), paths continuing below a list
-    for (t_, o_, fam_, *_m) in scale.magic_names(ctx) + scale.keyword_keys(ctx) + scale.list_parents(ctx):
+    for (t_, o_, fam_, *_m) in scale.magic_names(ctx) + scale.keyword_keys(ctx) + scale.list_parents(ctx) + scale.key_twins(ctx):
         cs.eval(t_, o_, fam_)
     # a name that could be split at `:` `-` `_` into a sibling object and a key in it; function values (never called)
     fb = obj({'ext': {'flag': ('b', True), 'n': ('nil',)}, 'a': {'b': I(1)}, 'x': ('o', 35), 'y': ('o', 36), 'z': ('o', 37), 'n': {'x': ('o', 37)}})
@@ -305,7 +305,15 @@ def check_C03(ctx):
     for _ in range(ctx.n(500, 20000)):
         z = ctx.rng.randrange(-2**63, 2**63) >> ctx.rng.choice([0, 0, 5, 9, 10, 11, 12, 30])
         cs.simple('i2f', str(z), 'i2f-random')
+    # one evaluator, consecutive calls with values that fall together when they are pushed through a float64 (or through 32 bits)
+    hist_ = []
+    for lit_ in ['9007199254740993', '9007199254740992', '9223372036854775807', '-9223372036854775808', '4294967296', '1', '9007199254740993.0']:
+        for vals_ in ([I(2**53), I(2**53 + 1), I(2**53 + 2), I(2**53)], [I(2**53 + 1), I(2**53)], [('i64', 2**53 + 1), ('i64', 2**53), I(2**53 + 1)], [I(2**63 - 1), I(2**63 - 2), I(2**63 - 1)],
+                      [I(-2**63), I(-2**63 + 1)], [I(2**32), I(0), ('i32', 0), I(2**32 + 1)], [I(1), F(1.0), F(1.0000000000000002), I(1)], [F(float(2**53)), I(2**53 + 1), F(float(2**53))]):
+            for op_ in ('eq', 'lt', 'ge', 'ne'):
+                hist_.append(cs.hist('x %s %s' % (op_, lit_), [('p', obj({'x': v_})) for v_ in vals_] + [('d',)], 'num-consecutive'))
     res = ctx.run(cs)
+    ctx.compare(hist_, res, ['out'])
     ev = [c for c in cs.cases if c.kind == 'eval']
     def in_c03(c, mo, io=None):
         """the statement restricts integers compared across the int / float64 divide to |n| <= 2^53"""
@@ -587,6 +595,13 @@ def check_C08(ctx):
         cs.eval(t_, o_, fam_)
     for (t_, o_, fam_, *_m) in scale.printing_alike(ctx):
         cs.eval(t_, o_, fam_)
+    # integer elements beyond int64, also where a hand-written digit loop would wrap back into range
+    for el_ in ['9223372036854775808', '18446744073709551615', '18446744073709551616', '18446744073709551617', '18446744073709551621', '27670116110564327423', '27670116110564327424', '36893488147419103232', '99999999999999999999', '184467440737095516160']:
+        for a_ in (I(0), I(5), I(1), I(-2**63), I(2**63 - 1), F(0.0), ABSENT):
+            o_ = obj({}) if a_ is ABSENT else obj({'a': a_})
+            cs.eval('a in [5, %s]' % el_, o_, 'int-overflow-lists')
+            cs.eval('a in [%s]' % el_, o_, 'int-overflow-lists')
+            cs.eval('a eq 5 or a eq %s' % el_, o_, 'int-overflow-lists')
     # elements beyond the float64 range next to infinite attributes: the list fails like the scalar literal does (both against the model)
     for (tin_, teq_, o_) in scale.inf_lists(ctx):
         cs.eval(tin_, o_, 'inf-lists')
@@ -656,12 +671,21 @@ def check_C06(ctx):
         cs.eval(t_, o_, fam_)
     for (t_, o_, fam_, *_m) in scale.guard_patterns(ctx):
         cs.eval(t_, o_, fam_)
+    hist6 = []
+    for text_ in ['kind eq "user" and \nowner gt null', 'kind eq "user" and owner gt null', 'kind eq "user" and \n\nowner co 1 or k eq 1', 'owner gt null or kind eq "user"', 'not (kind eq "group") and \nowner in true']:
+        ou_, og_ = obj({'kind': S('user'), 'k': I(1)}), obj({'kind': S('group'), 'k': I(1)})
+        for ops in ([('p', ou_), ('p', og_), ('p', ou_), ('d',)], [('p', og_), ('p', ou_), ('p', og_), ('d',)], [('p', ou_), ('r',), ('p', og_), ('d',)]):
+            hist6.append(cs.hist(text_, ops, 'fail-then-unreached'))
     res = ctx.run(cs)
-    ctx.compare(cs.cases, res, ['verdict', 'err'], scope=accepted)
+    ctx.compare([c for c in cs.cases if c.kind != 'hist'], res, ['verdict', 'err'], scope=accepted)
+    ctx.compare(hist6, res, ['out'])
+    run_sequences(ctx)
     spec_violations(ctx, 'failure/verdict')
     # the error of the root entry point rules.Evaluate is ErrInvalidOperation exactly when the error of Process is
     for c in cs.cases:
         io = res.impl.get(c.id)
+        if c.kind == 'hist':
+            continue
         if io and io.get('rerr') not in (None, io.get('err')):
             ctx.violation('rules.Evaluate returns an error of class %s where NewEvaluator+Process return %s (errors.Is(err, ErrInvalidOperation) differs between the entry points)' % (io.get('rerr'), io.get('err')), [c], impl=io)
     ctx.exhaustive = ctx.tier != 'quick'
@@ -745,7 +769,7 @@ def check_C16(ctx):
                 break
     # input objects that contain themselves (no model counterpart): every call returns, the diagnostic's text can be produced, nothing is written
     cyc = CaseSet()
-    for k_ in range(6):
+    for k_ in range(9):
         cyc.simple('cyclic', str(k_), 'cyclic-object', scenario=k_)
     cres = ctx.run(cyc, label='cyc', nshards=len(cyc.cases), sides=('impl',), timeout=300, own_crash_handling=True)
     for c in cyc.cases:
@@ -1143,7 +1167,7 @@ def check_C02(ctx):
         c_ = cs.eval(t_, o_, fam_)
         if m_:
             deep_groups.append((c_, m_[1], [cs.eval(ct_, o_, 'deep-path-alone') for ct_ in m_[0]]))
-    for (t_, o_, fam_, *_m) in scale.wide_objects(ctx):
+    for (t_, o_, fam_, *_m) in scale.wide_objects(ctx) + scale.key_twins(ctx):
         cs.eval(t_, o_, fam_)
     for (t_, o_, fam_, m_) in scale.shared_suffixes(ctx) + scale.aligned_lines(ctx):
         c_ = cs.eval(t_, o_, fam_)
@@ -1518,7 +1542,7 @@ def check_C20(ctx):
 
 # ----------------------------------------------------------------------------
 HOSTILE_STRINGS = [S(b'\x80' * 100), S(b'\xbf' * 65), S(b'\xff' * 70), S('\u00e9' * 40), S('a' * 63 + '\u00e9' + 'b' * 10), S('x' * 300), S(b'a' * 64 + b'\xc3'), S(b'\xe3\x81' * 40), S('\U0001f600' * 20), S(b'\x00' * 70)]
-HOSTILE = HOSTILE_STRINGS + [('strpanic',), ('strnilptr',), ('strselfpanic',), ('strpanicinvop',), ('strpanicinvopw',), ('nilmap',), ('nil',), F(float('nan')), F(float('inf')), F(float('-inf'))] + [('o', t) for t in list(range(21)) + [22, 23, 24, 25, 26, 27, 29, 30, 31, 32, 33, 34, 35, 36, 37, 38, 39, 40, 41, 42, 43, 44, 45, 46, 47, 48, 49, 50, 51, 52]] + \
+HOSTILE = HOSTILE_STRINGS + [('strpanic',), ('strnilptr',), ('strselfpanic',), ('strpanicinvop',), ('strpanicinvopw',), ('nilmap',), ('nil',), F(float('nan')), F(float('inf')), F(float('-inf'))] + [('o', t) for t in list(range(21)) + [22, 23, 24, 25, 26, 27, 29, 30, 31, 32, 33, 34, 35, 36, 37, 38, 39, 40, 41, 42, 43, 44, 45, 46, 47, 48, 49, 50, 51, 52, 53, 54, 55, 56, 57, 58, 59]] + \
           [('str', b'abc'), ('strptr', b'1.0.0'), ('m', [(b'y', ('strpanic',))]), ('m', [(b'y', ('o', 3))]), ('strsame', b'abc'), ('strsame', b'abcd'), ('strreent', b'abc'), ('strtm', b'abc')]
 
 def check_C07(ctx):
@@ -1560,7 +1584,7 @@ def check_C07(ctx):
             continue
         if io.get('escaped') != '0':
             ctx.violation('a panic escaped a public call', [c], impl=io)
-        elif io.get('dbgtext') == 'panic' or 'panic' in io.get('errtext', ''):
+        elif io.get('dbgtext') in ('panic', 'unstable') or 'panic' in io.get('errtext', '') or 'unstable' in io.get('errtext', ''):
             ctx.violation('Error() of a returned error panicked (dbgtext=%s errtext=%s)' % (io.get('dbgtext'), io.get('errtext')), [c], impl=io)
         elif io.get('err') != 'none' and io.get('verdict') != '0':
             ctx.violation('an error was returned together with verdict true', [c], impl=io)
@@ -1808,7 +1832,7 @@ def check_C13(ctx):
             ctx.violation('the input object was modified by the call', [c], impl=io)
     # input objects that contain themselves (no model counterpart): every call returns, the diagnostic's text can be produced, nothing is written
     cyc = CaseSet()
-    for k_ in range(6):
+    for k_ in range(9):
         cyc.simple('cyclic', str(k_), 'cyclic-object', scenario=k_)
     cres = ctx.run(cyc, label='cyc', nshards=len(cyc.cases), sides=('impl',), timeout=300, own_crash_handling=True)
     for c in cyc.cases:
